@@ -9,7 +9,8 @@ CFG = dict(
          "on/off; the value vector of each configuration holds every letter of the alphabet, its neighbours (+-1; "
          "f64: adjacent binary64 values and +-0.25), the type's MIN/MAX (f64: +-inf, +-MAX, -0.0, 5e-324), random "
          "values and nulls; element types i32, Option<i32>, f64; label types i32, Option<i32>, f64; Vec / VecDeque / "
-         "ndarray containers; plus 1500 (thorough 5000) random configurations with up to 10 edges and matching "
+         "ndarray containers; Option<i32> edge vectors with a None at every position and f64 edge vectors with a NaN "
+         "(audit: guard first, unwrap panic at call time, NaN edge semantics); plus 1500 (thorough 5000) random configurations with up to 10 edges and matching "
          "label count (about a fifth of them with a repeated edge or unsorted edges: outside the quantifier, pins "
          "first-match-wins). unique: every series over {1,2,3} with a null prefix and/or suffix of every length up to "
          "len 7 (thorough 9) - sorted ascending, descending, constant and unsorted - every series over {null,1,2} "
@@ -17,14 +18,28 @@ CFG = dict(
          "null blocks and the type's extremes; each case runs vsorted_unique_idx(First), (Last) and vsorted_unique; "
          "element types i32, Option<i32>, f64; Vec / VecDeque / ndarray. All compared exactly with the model; "
          "non-trivial = distinct case descriptions not tagged nt=0 (empty / all-null input)",
-    theorem_hint="Props/C14.v: C14_cut_*, C14_unique_*",
-    level_text="Proof: 18 theorems of Props/C14.v (axiom-free, over Z with an explicit null) about the Gallina model of vcut, "
-               "vsorted_unique_idx and vsorted_unique: for strictly ascending edges and a matching label count a "
-               "non-null value gets label j iff interval j contains it, that interval is unique, Err iff no interval "
+    theorem_hint="Props/C14.v: C14_cut_*, C14_unique_*, C14_carrier_laws, C14_generic_spec_at_Z (Proofs/Binning.v, Unique.v, Audit14.v)",
+    level_text="Proof: 41 theorems of Props/C14.v about the Gallina model of vcut, vsorted_unique_idx and vsorted_unique. "
+               "(1)-(16), over Z with an explicit null, axiom-free: for strictly ascending edges and a matching label count "
+               "a non-null value gets label j iff interval j contains it, that interval is unique, Err iff no interval "
                "contains it, null gives the null label, a wrong label count gives Err, with open outer bounds every "
                "non-null value is labelled; on run-structured inputs (null prefix/suffix, adjacent runs distinct) "
                "Keep::First / Keep::Last return exactly the first / last index of each run and vsorted_unique one "
-               "representative per run. The model is tied to the code by an exhaustive small-scope differential run.",
+               "representative per run. (17)-(28), the audit (Proofs/Audit14.v): the same for EVERY carrier - first "
+               "match / Err iff no interval / label among the given labels / independence of T::MIN,T::MAX / length and "
+               "positions / null label iff null value for an arbitrary element type with arbitrary comparison functions "
+               "(no law); label iff enclosing interval, uniqueness and totality with open bounds on every carrier whose "
+               "non-null elements form a strict weak order (instances proved: Z, binary64 = Coq's primitive float, every "
+               "Num carrier with OrdLaws); law-free: every index reported by either Keep is in range, holds a non-null "
+               "value, indices strictly ascending; under a partial equivalence `==` (Z, binary64) Keep::Last and "
+               "Keep::First are characterised positionally for ANY series (nulls anywhere; the old hypothesis "
+               "nulls-at-ends of the Keep::First characterisation is dropped: the predecessor is the nearest non-null "
+               "cell) and vsorted_unique is exactly the values at the Keep::First indices; the excluded inputs are "
+               "characterised too: label-count guard first (Err whatever the edges hold), then a None edge of an Option "
+               "edge vector panics at call time, a label type without a null unwinds iff the input holds a null, and a NaN "
+               "edge loses totality (witness). Binary64 theorems depend on FloatAxioms.{eqb,ltb,leb}_spec only. Not "
+               "restated: the run form (9),(10) on carriers other than Z (subsumed by the positional theorems); no f32 "
+               "instance of its own. The model is tied to the code by an exhaustive small-scope differential run.",
     level_note="Trusted: Coq kernel; the hand-written model of valid_iter.rs (vcut, vsorted_unique_idx, vsorted_unique) "
                "and of itertools::tuple_windows / zip / enumerate / filter_map / chain(once); the harness and comparator. "
                "Edges are assumed non-null (a None edge of an Option<T> edge vector unwraps and panics; out of the "
@@ -33,5 +48,8 @@ CFG = dict(
              "vsorted_unique_idx",
              "Coq PrimFloat ltb/leb/eqb = IEEE-754 binary64 comparison (only for evaluating the model on f64 cases; "
              "no theorem depends on it)"],
-    assumptions=["edge vectors contain no null (Option<T> edge vectors hold only Some(_), f64 edge vectors no NaN)"],
+    assumptions=["edge vectors contain no null (Option<T> edge vectors hold only Some(_), f64 edge vectors no NaN) for "
+                 "the label / uniqueness / totality theorems; what the code does on null edges is theorem (27) and the "
+                 "NaN-edge witness, both compared with the real code (fn=vcut_call, fn=vcut_nan_edge)",
+                 "binary64 series for the unique theorems hold no Some(NaN) (DESIGN 5.4)"],
 )
